@@ -261,3 +261,7 @@ package frugal
 //@ func lib.TFramedTransport.Read
 //@   decreases len(buf)
 //@   modifies *
+
+// ---- registry (C01, C06) ------------------------------------------------------------------------------
+
+//@ guard lib.fRegistryImpl.mu protects channels
